@@ -13,7 +13,7 @@ _UTF8 = ['é', 'ü', '中', '文', '\U0001f600', '́',
 
 NAME_CLASSES = ['plain', 'space', 'newline', 'percent', 'odd', 'dash',
                 'dot', 'glob', 'utf8', 'badutf8', 'long', 'trashinfo',
-                'allbytes']
+                'allbytes', 'trashy', 'terminal', 'normal-forms']
 
 
 def _rand_bytes_name(rng, n, valid_utf8=None):
@@ -100,6 +100,20 @@ def hostile_name(rng, klass=None, maxbytes=48, allow_bad_utf8=True):
                         base + '.trashinfo.trashinfo'])
     elif klass == 'allbytes':
         n = _rand_bytes_name(rng, rng.randint(1, 12))
+    elif klass == 'trashy':
+        # names the trash itself uses
+        n = rng.choice(['files', 'info', '.Trash', '.Trash-1000', '.Trash-0',
+                        'Trash', 'directorysizes', 'expunged', 'info.trashinfo',
+                        '.local'])
+    elif klass == 'terminal':
+        # what a terminal or a line-oriented consumer would choke on
+        n = rng.choice(['\x1b[31mred\x1b[0m', 'bell\x07', 'back\x08\x08', 'a\x1b]0;title\x07b',
+                        'cr\rover', 'tab\tsep', 'nl\n   7 2001-01-01 00:00:00 /etc/passwd',
+                        '\x7f', 'a\x00b'.replace('\x00', '\x01')]) + base[:2]
+    elif klass == 'normal-forms':
+        # the same text in two Unicode normal forms: different names
+        n = rng.choice(['caf\u00e9', 'cafe\u0301', '\u00c5ngstr\u00f6m',
+                        'A\u030angstro\u0308m', '\uac00', '\u1100\u1161'])
     else:
         n = base
     if klass != 'long':
